@@ -117,6 +117,16 @@ def _is_pure_path(e: ast.expr) -> bool:
     return isinstance(e, (ast.Name, ast.Constant))
 
 
+def _is_access_path(e: ast.expr) -> bool:
+    """Pure path with element accesses: `REG[h.packet_type]`, `a.b[0].c` (slices are themselves pure paths / constants)."""
+    while isinstance(e, (ast.Attribute, ast.Subscript)):
+        if isinstance(e, ast.Subscript):
+            if isinstance(e.slice, ast.Slice) or not (_is_access_path(e.slice) or isinstance(e.slice, ast.Constant)):
+                return False
+        e = e.value
+    return isinstance(e, (ast.Name, ast.Constant))
+
+
 def _is_pure(e: ast.expr) -> bool:
     for n in ast.walk(e):
         if isinstance(n, (ast.Call, ast.Await, ast.Yield, ast.YieldFrom, ast.NamedExpr, ast.Lambda, ast.ListComp, ast.SetComp, ast.DictComp, ast.GeneratorExp, ast.Starred)):
@@ -197,6 +207,8 @@ class Normalizer:
         self._drop_unreferenced()
         for f in list(repo.funcs.values()):
             self._replace_node(f, self.split_ifexp(f))
+        for f in list(repo.funcs.values()):
+            self._replace_node(f, self.unflag_loops(f))
         for f in list(repo.funcs.values()):
             self._replace_node(f, self.positional(f))
         for f in list(repo.funcs.values()):
@@ -700,6 +712,55 @@ class Normalizer:
         new.body = block(list(f.node.body))
         return new if hit[0] else None
 
+    # ------------------------------------------------------------------------------------------ N7
+    def unflag_loops(self, f: Func) -> t.Optional[FuncNode]:
+        """done = False; while not done: BODY; done = E   ->   while True: BODY; if E: break
+        (the flag is initialised false, written only as the last statement of the loop body and read only by the loop test)."""
+        fn = f.node
+        hit = [False]
+
+        def uses(node: ast.AST, name: str) -> t.List[ast.Name]:
+            return [n for n in _walk_no_scopes(node) if isinstance(n, ast.Name) and n.id == name]
+
+        def block(stmts: t.List[ast.stmt]) -> t.List[ast.stmt]:
+            out: t.List[ast.stmt] = []
+            for s in stmts:
+                s2 = s
+                for fld in ("body", "orelse", "finalbody"):
+                    blk = getattr(s, fld, None)
+                    if isinstance(blk, list) and blk and isinstance(blk[0], ast.stmt):
+                        if s2 is s:
+                            s2 = copy.copy(s)
+                        setattr(s2, fld, block(blk))
+                if isinstance(s2, ast.While) and not s2.orelse:
+                    test = s2.test
+                    flag = test.operand.id if isinstance(test, ast.UnaryOp) and isinstance(test.op, ast.Not) and isinstance(test.operand, ast.Name) else None
+                    last = s2.body[-1] if s2.body else None
+                    if flag and isinstance(last, ast.Assign) and len(last.targets) == 1 and isinstance(last.targets[0], ast.Name) and last.targets[0].id == flag:
+                        inits = [x for x in out if isinstance(x, (ast.Assign, ast.AnnAssign)) and isinstance(getattr(x, "targets", [getattr(x, "target", None)])[0], ast.Name) and getattr(x, "targets", [getattr(x, "target", None)])[0].id == flag]
+                        init_ok = len(inits) == 1 and isinstance(inits[0].value, ast.Constant) and inits[0].value.value is False
+                        all_uses = uses(fn, flag)
+                        in_loop = uses(s2, flag)
+                        stores_in_loop = [n for n in in_loop if isinstance(n.ctx, ast.Store)]
+                        loads_in_loop = [n for n in in_loop if isinstance(n.ctx, ast.Load)]
+                        no_continue = not any(isinstance(n, ast.Continue) for n in _walk_no_scopes(s2))
+                        if init_ok and len(stores_in_loop) == 1 and len(loads_in_loop) == 1 and len(all_uses) == len(in_loop) + 1 and no_continue:
+                            cond = last.value
+                            while isinstance(cond, ast.Call) and isinstance(cond.func, ast.Name) and cond.func.id == "bool" and len(cond.args) == 1 and not cond.keywords:
+                                cond = cond.args[0]
+                            brk = ast.copy_location(ast.If(test=cond, body=[ast.copy_location(ast.Break(), last)], orelse=[]), last)
+                            new = ast.copy_location(ast.While(test=ast.copy_location(ast.Constant(value=True), test), body=list(s2.body[:-1]) + [brk], orelse=[]), s2)
+                            out.remove(inits[0])
+                            out.append(new)
+                            hit[0] = True
+                            continue
+                out.append(s2)
+            return out
+
+        new = copy.copy(fn)
+        new.body = block(list(fn.body))
+        return new if hit[0] else None
+
     # ------------------------------------------------------------------------------------------ N2
     def _callee(self, f: Func, call: ast.Call, locals_: t.Set[str]) -> t.Optional[t.Tuple[Func, bool]]:
         """Package callee of a call and whether the first parameter is bound by the receiver."""
@@ -869,16 +930,28 @@ class Normalizer:
                     if isinstance(tgt, ast.Name) and s.value is not None and count.get(tgt.id) == 1 and tgt.id not in params and tgt.id not in multi:
                         v = s.value
                         ok = False
-                        if _is_pure_path(v) and not isinstance(v, ast.Constant):
+                        if _is_access_path(v) and not isinstance(v, ast.Constant):
                             root = v
                             attrs = []
-                            while isinstance(root, ast.Attribute):
-                                attrs.append(root.attr)
+                            names_in_slices: t.List[str] = []
+                            while isinstance(root, (ast.Attribute, ast.Subscript)):
+                                if isinstance(root, ast.Attribute):
+                                    attrs.append(root.attr)
+                                else:
+                                    names_in_slices += [x.id for x in ast.walk(root.slice) if isinstance(x, ast.Name)]
                                 root = root.value
                             assert isinstance(root, ast.Name)
-                            # the path must be stable: root never rebound after, no store to any attribute on the path
-                            if (root.id in params and count.get(root.id, 0) == 0 or count.get(root.id, 0) <= 1 and root.id not in params) and not (set(attrs) & attr_stores) and attrs:
-                                ok = root.id != tgt.id
+
+                            def stable(nm: str) -> bool:
+                                if nm in params:
+                                    return count.get(nm, 0) == 0
+                                return count.get(nm, 0) <= 1
+
+                            has_sub = any(isinstance(x, ast.Subscript) for x in ast.walk(v))
+                            # the path must be stable: no name on it is rebound, no attribute on it is stored to,
+                            # and (for an element access) the container is never written through a subscript here
+                            if stable(root.id) and all(stable(nm) for nm in names_in_slices) and not (set(attrs) & attr_stores) and (attrs or has_sub):
+                                ok = root.id != tgt.id and tgt.id not in names_in_slices and not (has_sub and root.id in sub_stores)
                         else:
                             try:
                                 c = self.repo.fold(v, f.mod, dict(self._const_env))
